@@ -201,7 +201,7 @@ Proof.
     eapply execs_cons; eauto.
 Qed.
 
-Lemma run_reachable c items sched : reachable c items (run c sched (init c items)).
+Lemma run_reachable c items sched : reachable c items (runs c sched (init c items)).
 Proof. eexists. apply run_tr_execs. Qed.
 
 Lemma execs_trans c s tr s' tr' s'' :
